@@ -6,6 +6,7 @@ import (
 	"encoding/gob"
 	"fmt"
 	"io"
+	"math"
 	"sync"
 	"time"
 )
@@ -155,6 +156,11 @@ func LoadFromCompiled(compiled *CompiledTemplate, env *Environment, engine *Engi
 
 // writeString writes a string to a buffer with length prefix
 func writeString(w io.Writer, s string) error {
+	// The length prefix is a uint32: a longer string cannot be represented
+	if uint64(len(s)) > math.MaxUint32 {
+		return fmt.Errorf("string of %d bytes is too long to serialize", len(s))
+	}
+
 	// Write the string length as uint32
 	if err := binary.Write(w, binary.LittleEndian, uint32(len(s))); err != nil {
 		return err
@@ -166,11 +172,16 @@ func writeString(w io.Writer, s string) error {
 }
 
 // readString reads a length-prefixed string from a reader
-func readString(r io.Reader) (string, error) {
+func readString(r *bytes.Reader) (string, error) {
 	// Read string length
 	var length uint32
 	if err := binary.Read(r, binary.LittleEndian, &length); err != nil {
 		return "", err
+	}
+
+	// Never allocate more than the input can still provide
+	if int64(length) > int64(r.Len()) {
+		return "", io.ErrUnexpectedEOF
 	}
 
 	// Read string data
@@ -214,6 +225,10 @@ func SerializeCompiledTemplate(compiled *CompiledTemplate) ([]byte, error) {
 	}
 
 	// Write AST data length followed by data
+	if uint64(len(compiled.AST)) > math.MaxUint32 {
+		return nil, fmt.Errorf("AST of %d bytes is too long to serialize", len(compiled.AST))
+	}
+
 	if err := binary.Write(buf, binary.LittleEndian, uint32(len(compiled.AST))); err != nil {
 		return nil, fmt.Errorf("failed to serialize AST length: %w", err)
 	}
@@ -236,6 +251,14 @@ func DeserializeCompiledTemplate(data []byte) (*CompiledTemplate, error) {
 	compiled, err := deserializeBinaryFormat(data)
 	if err == nil {
 		return compiled, nil
+	}
+
+	// A gob stream starts with the length of its first message, which is a type
+	// definition and never one byte long. Data that starts with the version byte of
+	// the binary format is therefore a damaged binary stream: report that error
+	// instead of letting gob misread the following byte as a type id.
+	if data[0] == 1 {
+		return nil, err
 	}
 
 	// Fall back to the old gob format if binary deserialization fails
@@ -287,6 +310,10 @@ func deserializeBinaryFormat(data []byte) (*CompiledTemplate, error) {
 	var astLength uint32
 	if err := binary.Read(r, binary.LittleEndian, &astLength); err != nil {
 		return nil, fmt.Errorf("failed to read AST length: %w", err)
+	}
+
+	if int64(astLength) > int64(r.Len()) {
+		return nil, fmt.Errorf("failed to read AST data: %w", io.ErrUnexpectedEOF)
 	}
 
 	compiled.AST = make([]byte, astLength)
